@@ -3,6 +3,6 @@ CONSTANTS
   Vary = {"mainpos", "mainfirst", "keep", "fn"}
   Fns = {"Print", "Printf", "Println", "Fprint", "Fprintf", "Fprintln", "Sprint", "Sprintf", "Sprintln", "Errorf", "Sscan"}
   Shs = {"-"}
-  ScopeAware = FALSE
+  ScopeAware = TRUE
 INVARIANTS TypeOK Confluent ImportSound Export
 PROPERTIES Stable Terminates
